@@ -65,7 +65,7 @@ def replay(ctx, payload):
     h = payload.get("harness")
     if h == "kernel":
         return C01.replay(ctx, payload)
-    if h == "sched":
+    if h in ("sched", "sched+catchall"):
         return C10.replay(ctx, payload)
     return C02_deque.replay(ctx, payload)
 
